@@ -47,7 +47,11 @@ func (o *goSliceObject) setLength(value Value) {
 		// Needs expanding.
 		newSlice := reflect.MakeSlice(o.value.Type(), wantInt, wantInt)
 		reflect.Copy(newSlice, o.value)
-		o.value = newSlice
+		if o.value.CanSet() {
+			o.value.Set(newSlice)
+		} else {
+			o.value = newSlice
+		}
 	}
 }
 
@@ -65,7 +69,13 @@ func (o *goSliceObject) setValue(index int64, value Value) bool {
 	if !exists {
 		if int64(o.value.Len()) == index {
 			// Trying to append e.g. slice.push(...), allow it.
-			o.value = reflect.Append(o.value, reflectValue)
+			grown := reflect.Append(o.value, reflectValue)
+			if o.value.CanSet() {
+				// an addressable slice (a field of a bridged struct): the Go side must see it
+				o.value.Set(grown)
+			} else {
+				o.value = grown
+			}
 			return true
 		}
 		return false
